@@ -22,6 +22,7 @@ type Context interface {
 	Done() *vmc.Chan[struct{}]
 	Err() error
 	Deadline() (time.Time, bool)
+	Value(key any) any
 }
 
 type ctx struct {
@@ -32,6 +33,19 @@ type ctx struct {
 	deadline time.Time
 	hasDl    bool
 	cause    error
+	vparent  Context // value lookup continues here
+	key, val any
+}
+
+// Value is context.Context.Value.
+func (c *ctx) Value(key any) any {
+	if c.key != nil && c.key == key {
+		return c.val
+	}
+	if c.vparent != nil {
+		return c.vparent.Value(key)
+	}
+	return nil
 }
 
 func (c *ctx) Done() *vmc.Chan[struct{}] { return c.done }
@@ -71,7 +85,7 @@ func (c *ctx) cancelQuiet(err error) {
 
 func newChild(parent Context) *ctx {
 	p, _ := parent.(*ctx)
-	c := &ctx{parent: p, done: vmc.NewChan[struct{}](0)}
+	c := &ctx{parent: p, done: vmc.NewChan[struct{}](0), vparent: parent}
 	if p != nil {
 		if p.err != nil {
 			c.err = p.err
@@ -109,7 +123,6 @@ func WithDeadline(parent Context, t time.Time) (Context, CancelFunc) {
 	return WithTimeout(parent, t.Sub(vmc.Now()))
 }
 
-
 // CancelCauseFunc cancels with a cause.
 type CancelCauseFunc = func(cause error)
 
@@ -136,11 +149,39 @@ func Cause(c Context) error {
 	return c.Err()
 }
 
-// WithValue is transparent (values are not modelled).
-func WithValue(parent Context, key, val any) Context { return parent }
+// WithValue derives a context carrying a value.
+func WithValue(parent Context, key, val any) Context {
+	c := newChild(parent)
+	c.key, c.val = key, val
+	return c
+}
 
-// WithoutCancel returns a context that is never cancelled.
-func WithoutCancel(parent Context) Context { return Background() }
+// WithoutCancel returns a context that is never cancelled but keeps the values.
+func WithoutCancel(parent Context) Context { return &ctx{vparent: parent} }
+
+// WithDeadlineCause is WithDeadline remembering a cause.
+func WithDeadlineCause(parent Context, t time.Time, cause error) (Context, CancelFunc) {
+	return WithTimeoutCause(parent, t.Sub(vmc.Now()), cause)
+}
+
+// WithTimeoutCause is WithTimeout remembering a cause.
+func WithTimeoutCause(parent Context, d time.Duration, cause error) (Context, CancelFunc) {
+	c := newChild(parent)
+	dl := vmc.Now().Add(d)
+	if !c.hasDl || dl.Before(c.deadline) {
+		c.deadline, c.hasDl = dl, true
+	}
+	stop := vmc.AddTimerFunc(d, "ctx-timeout", func() {
+		if c.err == nil && c.cause == nil {
+			c.cause = cause
+		}
+		c.cancelQuiet(DeadlineExceeded)
+	})
+	return c, func() {
+		stop()
+		c.cancel(Canceled)
+	}
+}
 
 // AfterFunc runs f in its own goroutine once the context is done; returns a stop function.
 func AfterFunc(c Context, f func()) (stop func() bool) {
